@@ -51,14 +51,25 @@ func init() {
 		getBlocking, retryBlocking := false, false
 		capacity := int64(0)
 		if err == nil {
-			if fd := funcDecl(f, "Get"); fd != nil && fd.Body != nil {
+			// counted over the whole file, so that moving a send into a helper (the retry closure into a method, Get's
+			// send into an enqueue function) does not break the tie: no send on the queue is a select case, Get's path
+			// has a plain send, and so has some other function (the retry path)
+			inGet, elsewhere, selects := 0, 0, 0
+			for _, d := range f.Decls {
+				fd, ok := d.(*ast.FuncDecl)
+				if !ok || fd.Body == nil {
+					continue
+				}
 				p, s := sendsOn(fd.Body, "needExplore")
-				getBlocking = p == 1 && s == 0
+				selects += s
+				if fd.Name.Name == "Get" {
+					inGet += p
+				} else {
+					elsewhere += p
+				}
 			}
-			if fd := funcDecl(f, "Run"); fd != nil && fd.Body != nil {
-				p, s := sendsOn(fd.Body, "needExplore")
-				retryBlocking = p == 1 && s == 0
-			}
+			getBlocking = selects == 0 && (inGet >= 1 || elsewhere >= 2)
+			retryBlocking = selects == 0 && (elsewhere >= 1)
 			ast.Inspect(f, func(n ast.Node) bool {
 				if kv, ok := n.(*ast.KeyValueExpr); ok {
 					if id, ok := kv.Key.(*ast.Ident); ok && id.Name == "needExplore" {
